@@ -17,6 +17,6 @@ CONSTANTS
   MaxSteps = 1
   HostileSteps = 1
   AllScopes = FALSE
-  GenWhat = {"checkerops", "checkerlist", "selectlist", "selectops", "listfail"}
+  GenWhat = {"checkerops", "checkerlist", "selectlist", "selectops", "listfail", "trees"}
   GenFull = FALSE
 CHECK_DEADLOCK FALSE
